@@ -56,13 +56,15 @@ def plan(tier):
         # quick: the exception-raising menu items on blocks of length <= 2, the three ALU items on longer blocks
         per = 6 if (tier != "quick" or block_len(mask) <= 2) else 3
         shards.append(("prog", fc, mask, per, tier))
+    shards.sort(key=lambda a: -block_len(a[2]) if a[0] == "prog" else 0)      # long shards first
     return {
         "shards": shards,
         "rule": "for every legal (firstcond, mask) [%d pairs] x all 16 NZCV x every instruction sequence of length "
                 "block length + 1 over the menu: co-simulate ref.model.step and emulate_cycle, compare the whole snapshot "
                 "after every step (handlers at the vectors return with SUBS PC,LR); state = (itstate, nzcv, sequence, step)" % len(its),
         "bounds": {"menu": [m[0] for m in menu(0)][:6] + ["branch (last slot only)"], "quick_menu": "all 6 items for block length <= 2, first 3 for longer blocks", "it_pairs": len(its), "nzcv": "8 values on which every condition takes both outcomes (quick), all 16 (thorough)",
-                   "steps_per_program": "block length + 1 instruction after the block + handler returns (cap 12)"},
+                   "steps_per_program": "block length + 1 instruction after the block + handler returns (cap 12)",
+                   "after_block_slot": "all menu items for block length <= 3; {alu16, alu32, svc} after a 4-instruction block"},
         "exhaustive": True,
         "assumptions": ["the menu instructions' own semantics are those of the C01/C02/C12 models"],
     }
@@ -129,6 +131,8 @@ def programs(res, fc, mask, per, tier="quick"):
         m = menu(s)[:min(per, 6)]
         if s == n - 1 and have_branch and per >= 3:
             m = m + [menu(s)[7], menu(s)[6]]
+        if s == n == 4 and per > 3:
+            m = [m[0], m[1], m[3]]          # after a 4-instruction block: ALU16 (sets flags again), ALU32, SVC
         slots.append(m)
     for seq in itertools.product(*slots):
         for nzcv in (NZCV8 if tier == "quick" else range(16)):
